@@ -40,6 +40,10 @@ def run(chk: Check) -> None:
     _ctor(chk, bi)
     _size_path(chk, bi)
     _block_views(chk)
+    from .c17 import _validation
+    sub = chk.sub()
+    _validation(sub)
+    chk.adopt(sub, lambda o: o.construct.startswith("ByteInterval."), "R19.2")
 
 
 def _initialized_size(chk: Check, bi) -> None:
